@@ -85,7 +85,7 @@ func c03nsRun(c c03nsCase, exitMs int) (*c17Report, []string, error) {
 	args = append(args, subnet)
 	var inj []map[string]interface{}
 	for _, e := range c.Events {
-		inj = append(inj, map[string]interface{}{"iface": iface, "after": e.AtWrite, "hex": hex.EncodeToString(e.Frame)})
+		inj = append(inj, map[string]interface{}{"iface": iface, "after": e.AtWrite, "hex": hex.EncodeToString(e.Frame), "delay_ms": e.DelayMs})
 	}
 	sc := map[string]interface{}{
 		"ifaces": []map[string]interface{}{
@@ -365,5 +365,120 @@ func TestC03NetnsQuiet(t *testing.T) {
 			}
 			return v
 		},
+	})
+}
+
+// ---------------------------------------------------------------- C16 on real sockets: replies late in the exit delay
+//
+// The reply to the last probe arrives t ms after that probe left, t inside the configured exit delay - also near its end.
+// On a real AF_PACKET socket the frame has to travel through the kernel's packet ring before the scan may stop listening.
+
+type c16nsCase struct {
+	Cmd     string `json:"command"`
+	Tun     bool   `json:"through_tun_device"`
+	ExitMs  int    `json:"exit_delay_ms"`
+	ReplyMs int    `json:"reply_arrives_ms_after_last_probe"`
+	Rate    string `json:"rate,omitempty"` // stretches the scan: the receiver has been idle for a second when the reply comes
+}
+
+func c16nsOnce(c c16nsCase) (reported bool, rep *c17Report, args []string, err error) {
+	kind := scanKind(c.Cmd)
+	cc := c03nsCase{Cmd: c.Cmd, Tun: c.Tun, Bits: 30, Rate: c.Rate}
+	if kind != "arp" && kind != "icmp" && kind != "udp" {
+		cc.Ports = []gram.PortRange{{Start: 443, End: 443}}
+	}
+	if kind == "udp" {
+		cc.Ports = []gram.PortRange{{Start: 53, End: 53}}
+	}
+	p, _ := gram.RefIPv4Target(c03nsSubnet(cc))
+	src := p.Base + 1
+	fr := c16Reply(kind, !c.Tun, src, 443)
+	cc.Events = []c03Event{{AtWrite: int(p.Size()), Frame: fr, DelayMs: c.ReplyMs}}
+	rep, args, err = c03nsRun(cc, c.ExitMs)
+	if err != nil {
+		return false, nil, args, err
+	}
+	sc := shape.Scan{Kind: kind, Ethernet: !c.Tun, Subnet: &p, Ports: cc.Ports, AllPorts: cc.Ports}
+	if kind == "icmp" || kind == "udp" || kind == "arp" {
+		sc.Ports, sc.AllPorts = nil, nil
+	}
+	verdict, key := shape.Classify(sc, fr)
+	if verdict != shape.Yes {
+		return false, rep, args, fmt.Errorf("harness: the late reply is not reply-shaped (%s)", key)
+	}
+	for _, l := range strings.Split(strings.TrimSuffix(rep.Stdout, "\n"), "\n") {
+		if l == "" {
+			continue
+		}
+		if k, e := recordKey(kind, l); e == nil && k == key {
+			return true, rep, args, nil
+		}
+	}
+	return false, rep, args, nil
+}
+
+func c16nsCheck(c c16nsCase) *kit.Verdict {
+	v := &kit.Verdict{Units: 1}
+	v.Label("scan=%s", scanKind(c.Cmd))
+	v.Label("reply-at=%s", map[bool]string{true: "near-the-end", false: "early-or-middle"}[c.ExitMs-c.ReplyMs <= 60])
+	misses, runs, calm := 0, 0, 0
+	var line string
+	for try := 0; try < 6; try++ {
+		jw := startJitterWatch()
+		ok, rep, args, err := c16nsOnce(c)
+		late := jw.Stop()
+		if err != nil {
+			if strings.HasPrefix(err.Error(), "harness:") {
+				return v.Failf("%v", err)
+			}
+			fmt.Fprintln(os.Stderr, "C16 netns infrastructure problem:", err)
+			return &kit.Verdict{Inconclusive: true}
+		}
+		line = "sx " + strings.Join(args, " ")
+		if rep.TimedOut || rep.Exit != 0 {
+			return v.Failf("%s: exit=%d timed out=%v\nstderr: %s", line, rep.Exit, rep.TimedOut, clipN(rep.Stderr, 400))
+		}
+		if rep.Injected != 1 {
+			return &kit.Verdict{Inconclusive: true}
+		}
+		if rep.WallMs < int64(c.ExitMs) {
+			return v.Failf("%s\nthe process ran for %d ms only; the exit delay is %d ms", line, rep.WallMs, c.ExitMs)
+		}
+		runs++
+		if late < 15*time.Millisecond {
+			calm++
+			if !ok {
+				misses++
+			}
+		}
+		if ok && try == 0 {
+			v.NonTrivial = c.ReplyMs > 0
+			return v
+		}
+		if try >= 2 && misses == 0 {
+			break
+		}
+	}
+	// a single miss can be a scheduling accident; a reply that is lost again and again on a calm machine is not
+	if calm >= 4 && misses >= 3 {
+		return v.Failf("%s\nthe reply to the last probe arrived %d ms after that probe left - inside the exit delay of %d ms, %d ms before its end - and was not reported in %d of %d runs on a calm machine (scheduler lateness < 15 ms)",
+			line, c.ReplyMs, c.ExitMs, c.ExitMs-c.ReplyMs, misses, calm)
+	}
+	return &kit.Verdict{Inconclusive: true}
+}
+
+func TestC16NetnsLate(t *testing.T) {
+	kit.Run(t, kit.Spec[c16nsCase]{
+		Prop: "C16",
+		Rule: "the REAL sx binary in a network namespace (real AF_PACKET socket and ring): arp / icmp / udp / tcp syn / tcp fin over a /30 on a veth or tun device with --exit-delay 150 / 300 / 600 ms, a third of the scans stretched to about a second by --rate 3/s (the receiver has seen nothing for a while); the reply to the last probe is put on the wire t ms after that probe was seen, t = 0, half the delay, or 50 ms before its end. Oracle: the reply is reported and the process does not end before the delay; a miss is re-run five times and counts as a violation when the reply is lost in >= 3 runs during which a scheduler-lateness monitor saw < 15 ms (otherwise the case is discarded). non-trivial: t > 0; distinct by case",
+		Gen: func(t *rapid.T) c16nsCase {
+			c := c16nsCase{Cmd: rapid.SampledFrom([]string{"arp", "icmp", "udp", "tcp syn", "tcp fin"}).Draw(t, "cmd"), ExitMs: rapid.SampledFrom([]int{150, 300, 600}).Draw(t, "exit")}
+			c.Tun = c.Cmd != "arp" && rapid.Bool().Draw(t, "tun")
+			before := kit.EnvInt("C16_BEFORE_END_MS", 50)
+			c.ReplyMs = rapid.SampledFrom([]int{0, c.ExitMs / 2, c.ExitMs - before, c.ExitMs - before}).Draw(t, "reply-at")
+			c.Rate = rapid.SampledFrom([]string{"", "", "3/s"}).Draw(t, "rate")
+			return c
+		},
+		Check: c16nsCheck,
 	})
 }
